@@ -1,0 +1,10 @@
+//go:build verif
+// +build verif
+
+package hpack
+
+// VerifHuffmanCode exposes one entry of the Huffman code table to the out-of-tree verification
+// harness (build tag verif), which uses it to build bit-exact malformed Huffman strings.
+func VerifHuffmanCode(sym byte) (code uint32, nbits uint8) {
+	return huffmanCodes[sym], huffmanCodeLen[sym]
+}
